@@ -37,8 +37,8 @@ ASSUMPTIONS = [
 ]
 FLOORS = {"quick": {"judged": 8000, "expect_accept": 2000,
                     "expect_reject": 2000},
-          "thorough": {"judged": 400000, "expect_accept": 100000,
-                       "expect_reject": 100000}}
+          "thorough": {"judged": 250000, "expect_accept": 100000,
+                       "expect_reject": 80000}}
 N_MODELS = {"quick": 300, "thorough": 12000}
 TEXTS = {"quick": 14, "thorough": 36}
 
